@@ -299,30 +299,32 @@ def judge(c, part):
     # ---- list of quantities in mixed commensurable units
     mu = c["mixed"]
     mv = c["mixvals"][: len(mu)]
-    lst = [unyt_quantity(v, uu) for v, uu in zip(mv, mu)]
-    for nm, mk in (("unyt_array(list)", lambda: unyt_array(lst)), ("np.array->unyt_array(list, unit)", None), ("unyt_array(tuple)", lambda: unyt_array(tuple(lst)))):
-        if mk is None:
-            continue
-        part.ev()
-        try:
-            r = mk()
-        except Exception as e:
-            bad(f"mixed-list-raises:{nm}", error=e, units=mu)
-            continue
-        if str(r.units) != str(Unit(mu[0])) or r.units != Unit(mu[0]):
-            bad(f"mixed-list-unit:{nm}", got=r.units, want=mu[0])
-            continue
-        s0, _, o0 = R.atom(mu[0])
-        s0, o0 = float(s0), float(o0)
-        # SI = scale * (reading - offset): the table's convention (offset 0 except for degC/degF)
-        # scales are the library's own (their values are C02's subject); zero points come from the independent table
-        s0 = float(Unit(mu[0]).base_value)
-        want = [float(Unit(uu).base_value) * (v - float(R.atom(uu)[2])) / s0 + o0 for v, uu in zip(mv, mu)]
-        if not np.allclose(np.asarray(r, dtype=float), want, rtol=1e-12, atol=1e-10 if (o0 or any(float(R.atom(uu)[2]) for uu in mu)) else 0):
-            bad(f"mixed-list-values:{nm}", got=r, want=want, units=mu)
-        else:
-            if len(set(mu)) > 1:
-                part.nt(("mixed", tuple(mu)))
+    # float items, then integer items (Python ints: the converted values must not be squeezed back into the first item's type)
+    for tag, mv_ in (("", mv), (":int-items", [int(round(v)) or 1 for v in mv])):
+        lst = [unyt_quantity(v, uu) for v, uu in zip(mv_, mu)]
+        for nm, mk in (("unyt_array(list)", lambda: unyt_array(lst)), ("np.array->unyt_array(list, unit)", None), ("unyt_array(tuple)", lambda: unyt_array(tuple(lst)))):
+            if mk is None:
+                continue
+            part.ev()
+            try:
+                r = mk()
+            except Exception as e:
+                bad(f"mixed-list-raises:{nm}{tag}", error=e, units=mu)
+                continue
+            if str(r.units) != str(Unit(mu[0])) or r.units != Unit(mu[0]):
+                bad(f"mixed-list-unit:{nm}{tag}", got=r.units, want=mu[0])
+                continue
+            s0, _, o0 = R.atom(mu[0])
+            s0, o0 = float(s0), float(o0)
+            # SI = scale * (reading - offset): the table's convention (offset 0 except for degC/degF)
+            # scales are the library's own (their values are C02's subject); zero points come from the independent table
+            s0 = float(Unit(mu[0]).base_value)
+            want = [float(Unit(uu).base_value) * (v - float(R.atom(uu)[2])) / s0 + o0 for v, uu in zip(mv_, mu)]
+            if not np.allclose(np.asarray(r, dtype=float), want, rtol=1e-12, atol=1e-10 if (o0 or any(float(R.atom(uu)[2]) for uu in mu)) else 0):
+                bad(f"mixed-list-values:{nm}{tag}", got=r, want=want, units=mu)
+            else:
+                if len(set(mu)) > 1:
+                    part.nt(("mixed" + tag, tuple(mu)))
     # the same with rows (1-d arrays) as list elements, row length different from the list length
     rows = [unyt_array([v, v + 1.0, v - 2.0], uu) for v, uu in zip(mv, mu)]
     part.ev()
